@@ -353,6 +353,10 @@ func goEncode(prov blanknodes.StringProvider, tbl *vh.BNTable, ts [][3]*vh.GTerm
 		}
 		if t[2] != nil {
 			rt.Object, _ = tbl.Term(*t[2]).(rdf.ObjectValue)
+			if l, ok := rt.Object.(rdf.Literal); ok && t[2].Lang == nilTag {
+				l.Tag = nil
+				rt.Object = l
+			}
 		}
 		if err := e.AddTriple(context.Background(), rt); err != nil {
 			rejected++
@@ -399,10 +403,16 @@ func triplesOf(qs []vh.GQuad) [][3]*vh.GTerm {
 	return ts
 }
 
+// nilTag as GTerm.Lang: an rdf:langString literal whose Tag is nil (the encoder's fallback branch).
+const nilTag = "\x00nil-tag"
+
 func wireTriple(t [3]*vh.GTerm, label func(int) string) string {
 	w := func(x *vh.GTerm) string {
 		if x == nil {
 			return "-"
+		}
+		if x.Kind == vh.KLit && x.Lang == nilTag {
+			return "L" + vh.XS(x.Lex)[1:] + "." + vh.XS(x.DT)[1:] + ".-"
 		}
 		return x.Wire(label)
 	}
@@ -443,7 +453,7 @@ func (g *gen) encCases(n int) {
 			case 2: // langString without a language tag, xsd:string spelled out, empty datatype
 				ts[k][2] = ptr(vh.GTerm{Kind: vh.KLit, Lex: g.r.LexicalForm(), DT: vh.Pick(g.r, []string{"", vh.XSDString, rdfDirLangString})})
 			case 3:
-				ts[k][2] = ptr(vh.GTerm{Kind: vh.KLit, Lex: g.r.LexicalForm(), DT: vh.RDFLangString, Lang: ""})
+				ts[k][2] = ptr(vh.GTerm{Kind: vh.KLit, Lex: g.r.LexicalForm(), DT: vh.RDFLangString, Lang: vh.Pick(g.r, []string{"", nilTag})})
 			case 4: // arbitrary strings as IRIs
 				ts[k][g.r.Intn(3)] = ptr(vh.GTerm{Kind: vh.KIRI, IRI: g.r.LexicalForm()})
 			}
@@ -520,8 +530,9 @@ func (g *gen) decDoc(kind string, b []byte, o decOpts, nontrivial bool) {
 		return
 	}
 	g.add(kind, fmt.Sprintf("rj.dec %s %s %s", variant, end, toks), r.res, op, nontrivial)
-	if !o.ws {
-		g.add("wn", "rj.wn "+toks, "true", op, false)
+	if !o.ws { // same input, second question: not counted as an evaluation of its own
+		g.items = append(g.items, item{line: "rj.wn " + toks, goR: "true", kind: "wn", op: op})
+		g.rep.Count("op:wn")
 	}
 	v := r.res
 	if i := strings.LastIndex(v, "|"); i >= 0 {
@@ -953,6 +964,16 @@ func (g *gen) oracleOne(ts [][3]*vh.GTerm, custom bool, eo encOpts, do decOpts) 
 		fail("output is not valid UTF-8")
 		return
 	}
+	// grammaticality: the bytes must tokenise as strict JSON (real tokenizer) and the tokens must be
+	// accepted by the Lean recogniser Spec.RJG.accepts
+	toks, end, pan := tokenize(doc, decOpts{c1ok: hasC1(string(doc))})
+	if pan != "" || end != "eof" {
+		fail("output is not JSON: tokenizer ended with " + end + " " + pan)
+		return
+	}
+	if !*nomodel {
+		g.items = append(g.items, item{line: "rj.accepts " + toks, goR: "true", kind: "grammar", op: "rj.dec.bytes " + decOpts{}.String() + " " + vh.X(doc)})
+	}
 	r := goDecode(doc, do)
 	if !strings.HasSuffix(r.res, "|clean") {
 		fail("decoder verdict " + r.res[strings.LastIndex(r.res, "|")+1:] + " " + r.errText)
@@ -1105,63 +1126,89 @@ func main() {
 	}
 	g := &gen{r: vh.NewRng(seed), rep: rep, known: known}
 
+	// flush runs the model on the protocol lines collected so far and compares
+	flush := func() {
+		if *nomodel || len(g.items) == 0 {
+			g.items = g.items[:0]
+			return
+		}
+		lines := make([]string, len(g.items))
+		for i, it := range g.items {
+			lines[i] = it.line
+		}
+		res, err := vh.Driver{Path: *driver}.RunParallel(lines)
+		if err != nil {
+			fmt.Fprintln(os.Stderr, err)
+			os.Exit(2)
+		}
+		for i, it := range g.items {
+			rep.Compared++
+			goR := it.goR
+			if strings.HasPrefix(goR, "panic:") { // the model has one panic outcome; the message stays in the report
+				goR = "panic"
+			}
+			if res[i] == goR {
+				continue
+			}
+			detail := it.kind + " model-line=" + clip(it.line, 600)
+			if it.kind == "grammar" {
+				rep.Count("violation:C01:not-grammatical")
+				if rep.Hist["violation:C01:not-grammatical"] <= 5 {
+					rep.Add(vh.Case{Kind: "violation", Op: it.op, Model: res[i], Detail: "C01: encoder output rejected by Spec.RJG.accepts — " + clip(it.line, 600)})
+				}
+				continue
+			}
+			if it.kind == "wn" {
+				detail = "the real tokenizer produced a token stream that is not WellNested (assumption of rj_no_panic_legacy broken) — " + detail
+			}
+			rep.Count("disagreement:" + it.kind)
+			if rep.Hist["disagreement:"+it.kind] <= 10 {
+				rep.Add(vh.Case{Kind: "disagreement", Op: it.op, Go: clip(it.goR, 2000), Model: clip(res[i], 2000), Detail: detail})
+			}
+		}
+		g.items = g.items[:0]
+	}
+
 	if *replay != "" {
 		g.runHints(*replay)
+		flush()
 	} else {
-		n := 1500 * *scale
+		n := 12000 * *scale
 		if *tier == "thorough" {
-			n = 60000 * *scale
+			n = 240000 * *scale
 		}
 		if *hints != "" {
 			g.runHints(*hints)
 		}
 		g.fixedCases()
-		if !*nomodel {
-			g.encCases(4 * n)
+		flush()
+		const batch = 4000
+		for done := 0; done < n; done += batch {
+			k := batch
+			if n-done < k {
+				k = n - done
+			}
+			if !*nomodel {
+				g.encCases(4 * k)
+			}
+			g.decCases(k)
+			g.oracle(4 * k)
+			flush()
 		}
-		g.decCases(n)
-		g.oracle(4 * n)
 	}
 
-	finish := func(msg string) {
-		if err := rep.Write(*out); err != nil {
-			fmt.Fprintln(os.Stderr, err)
-			os.Exit(2)
-		}
-		fmt.Println(msg)
-		if rep.Failures() > 0 {
-			os.Exit(1)
-		}
-	}
-	if *nomodel {
-		finish(fmt.Sprintf("c01rj (oracles only): %d evaluations, %d failures", rep.Evaluations, rep.Failures()))
-		return
-	}
-	lines := make([]string, len(g.items))
-	for i, it := range g.items {
-		lines[i] = it.line
-	}
-	res, err := vh.Driver{Path: *driver}.RunParallel(lines)
-	if err != nil {
+	if err := rep.Write(*out); err != nil {
 		fmt.Fprintln(os.Stderr, err)
 		os.Exit(2)
 	}
-	for i, it := range g.items {
-		rep.Compared++
-		goR := it.goR
-		if strings.HasPrefix(goR, "panic:") { // the model has one panic outcome; the message stays in the report
-			goR = "panic"
-		}
-		if res[i] == goR {
-			continue
-		}
-		detail := it.kind + " model-line=" + clip(it.line, 600)
-		if it.kind == "wn" {
-			detail = "the real tokenizer produced a token stream that is not WellNested (assumption of rj_no_panic_legacy broken) — " + detail
-		}
-		rep.Add(vh.Case{Kind: "disagreement", Op: it.op, Go: clip(it.goR, 2000), Model: clip(res[i], 2000), Detail: detail})
+	if *nomodel {
+		fmt.Printf("c01rj (oracles only): %d evaluations, %d failures\n", rep.Evaluations, rep.Failures())
+	} else {
+		fmt.Printf("c01rj: %d evaluations, %d compared with the model, %d failures, %d known\n", rep.Evaluations, rep.Compared, rep.Failures(), len(rep.Cases)-rep.Failures())
 	}
-	finish(fmt.Sprintf("c01rj: %d evaluations, %d compared with the model, %d failures, %d known", rep.Evaluations, rep.Compared, rep.Failures(), len(rep.Cases)-rep.Failures()))
+	if rep.Failures() > 0 {
+		os.Exit(1)
+	}
 }
 
 func clip(s string, n int) string {
